@@ -375,14 +375,15 @@ def shards(tier, seed=1):
     n = 1 if q else 8
     out = []
     vals = [(f, o) for f in ("laplace", "helmholtz", "modified") for o in ("V", "K")] + [("maxwell", "E"), ("maxwell", "M")]
-    for fam, op in (rot(vals, seed, 2) if q else vals):
-        out.append({"check": "values", "fam": fam, "op": op, "examples": 14 * n, "budget_s": 240 * n})
+    # every potential kernel and every far-field kernel in every run (each is its own function in core/numba_kernels.py)
+    for fam, op in vals:
+        out.append({"check": "values", "fam": fam, "op": op, "examples": 10 if q else 112, "budget_s": 100 if q else 1920})
     pd = ["helmholtz", "maxwell", "laplace", "modified"]
     for fam in (rot(pd, seed, 1) if q else pd):
-        out.append({"check": "pde", "fam": fam, "examples": 6 * n, "budget_s": 300 * n})
-    ff = [("helmholtz", "V"), ("maxwell", "E"), ("helmholtz", "K"), ("maxwell", "M")]
-    for fam, op in (rot(ff, seed, 2) if q else ff):
-        out.append({"check": "farfield", "fam": fam, "op": op, "examples": 10 * n, "budget_s": 260 * n})
+        out.append({"check": "pde", "fam": fam, "examples": 6 * n, "budget_s": 240 * n})
+    ff = [("helmholtz", "V"), ("helmholtz", "K"), ("maxwell", "E"), ("maxwell", "M")]
+    for fam, op in ff:
+        out.append({"check": "farfield", "fam": fam, "op": op, "examples": 8 if q else 80, "budget_s": 120 if q else 2080})
     return out
 
 
